@@ -23,6 +23,8 @@ OWNERS = {
     'C19': ['C19.'],
     'C08': ['C08.'],
     'C13': ['C13.'],
+    'C16': ['C16.'],
+    'C20': ['C20.'],
 }
 
 
@@ -146,13 +148,14 @@ def run_dbuf(ctx, fam):
 
 
 def finish(ctx, fam, scripts, trace_module, mutants, features, trace_cfg=None, extra_env=None,
-           extra_cov=None, call_timeout='3s'):
+           extra_cov=None, call_timeout='3s', retries=1, keep_trace=False):
     log('[%s] driving %d scripts through the real code' % (ctx.prop, len(scripts)))
     tpath = vlib.drive(ctx, scripts, call_timeout=call_timeout)
     nev = sum(1 for _ in open(tpath))
     log('[%s] validating %d recorded events against %s' % (ctx.prop, nev, trace_module))
     bad = vlib.validate(ctx, trace_module, tpath, cfg=trace_cfg, extra_env=extra_env)
-    res = vlib.judge(ctx, trace_module, scripts, tpath, bad, OWNERS, trace_cfg=trace_cfg, extra_env=extra_env)
+    res = vlib.judge(ctx, trace_module, scripts, tpath, bad, OWNERS, trace_cfg=trace_cfg, extra_env=extra_env,
+                     retries=retries)
     st = binding_selftest(ctx, trace_module, tpath, mutants, cfg=trace_cfg, extra_env=extra_env,
                           skip={b['tid'] for b in bad})
     traces = vlib.split_traces(tpath)
@@ -186,6 +189,13 @@ def finish(ctx, fam, scripts, trace_module, mutants, features, trace_cfg=None, e
     )
     if extra_cov:
         cov.update(extra_cov)
+    if keep_trace:
+        ctx.last_trace = tpath
+    if fam.get('_post'):
+        d, tot = fam['_post'](tpath)
+        cov['drift_model_vs_code'] = dict(grid_points=tot, disagreements=d)
+        if d:
+            log('DRIFT: the Verify model of Config.tla disagrees with the code on %d of %d grid points (informational)' % (d, tot))
     if getattr(ctx, 'parts', None) is not None:
         ctx.parts.append((cov, fam['assumptions'], len(res['violations'])))
     else:
@@ -247,7 +257,7 @@ DBUF_ASSUME = [
 ]
 
 
-COMP_TRACE = {'tworun': 'TwoRun_Trace', 'dbuf': 'DecoderBuf_Trace', 'dec': 'Decoder_Trace', 'parser': 'Parser_Trace', 'wrap': 'Wrap_Trace'}
+COMP_TRACE = {'config': 'Config_Trace', 'tworun': 'TwoRun_Trace', 'dbuf': 'DecoderBuf_Trace', 'dec': 'Decoder_Trace', 'parser': 'Parser_Trace', 'wrap': 'Wrap_Trace'}
 
 
 def replay(ctx, fam, path):
@@ -700,8 +710,14 @@ def run_tworun(ctx, fam):
     if fam.get('race'):
         conc = vlib.go_gen(ctx, 'tworun-conc', fam['race'] * (3 if t else 1), ctx.seed + 7919)
         rc_race, extra = race_part(ctx, fam, conc)
-    rc = finish(ctx, fam, scripts, 'TwoRun_Trace', tworun_mutants, tworun_features, extra_cov=extra,
-                call_timeout='20s')
+    try:
+        rc = finish(ctx, fam, scripts, 'TwoRun_Trace', tworun_mutants, tworun_features, extra_cov=extra,
+                    call_timeout='20s', retries=10)
+    except Infra as e:
+        if rc_race != 1:
+            raise
+        log('note: after the race-detector violation the trace part ended without verdict: %s' % e)
+        rc = 1
     return 1 if (rc == 1 or rc_race == 1) else rc
 
 
@@ -711,13 +727,179 @@ TWORUN_ASSUME = [
     'goroutine schedules are those the Go scheduler produces while 8 instances run concurrently next to 3 busy parser/decoder goroutines (sampled, not enumerated); the race detector watches a subset of the concurrent scripts',
 ]
 
-MIX_GENERAL = dict(walks=140, go=[('parser', 350), ('parser-runs', 49)])
+
+# ----------------------------------------------------------------------------
+# Config family: C20, C16
+# ----------------------------------------------------------------------------
+def config_mutants(evs):
+    for i, e in enumerate(evs):
+        if e['op'] == 'cfg' and e.get('parsed') and e.get('new') == 'done' and e.get('new_err') == '':
+            m = copy.deepcopy(evs)
+            k = sorted(m[i]['parsed'])[0]
+            m[i]['parsed'][k] = m[i]['parsed'][k] + '1'
+            yield 'flipfield', m
+            m2 = copy.deepcopy(evs)
+            m2[i]['new_err'] = 'err'
+            yield 'fliperr', m2
+            return
+
+
+def config_features(evs):
+    f = set()
+    for e in evs[1:]:
+        if e['op'] == 'cfg':
+            if e.get('new') == 'done':
+                f.add('accepted' if e.get('new_err') == '' else 'refused')
+            if e.get('d1') != e.get('f'):
+                f.add('defaults_applied')
+            if any(v.startswith('-') for v in e['f'].values()):
+                f.add('negative_field')
+            if any(len(v) > 9 and not v.startswith('s:') for v in e['f'].values()):
+                f.add('huge_field')
+        elif e['op'] == 'jsondoc':
+            f.add('json_accepted' if e.get('err') == '' else 'json_rejected')
+        elif e['op'] in ('panic', 'timeout'):
+            f.add(e['op'])
+    return f
+
+
+def chunk_ops(ops, tid, size=200, tags=()):
+    out = []
+    for i in range(0, len(ops), size):
+        out.append(dict(tid='%s-%d' % (tid, i // size), comp='config', cfg={}, ops=ops[i:i + size], tags=list(tags)))
+    return out
+
+
+def generic_history(kind, d1, idx, rng):
+    """A parser script and a wrap script that push a parser built from an
+    accepted boundary configuration through more than one buffer fill, Shrink,
+    Reset (nil and data), NoTrailingLiterals, nil blocks, probes, and a
+    wrapped run with short reads and a reader fault."""
+    cfg = {k: int(v) for k, v in d1.items() if not v.startswith('s:')}
+    cfg['kind'] = kind
+    B = cfg.get('BufferSize', 64)
+    L = min(3 * B + 7, 260)
+    alpha = rng.choice([[0], [0, 1], [97, 98, 99], [0, 0, 0, 255]])
+    data = []
+    while len(data) < L:
+        if rng.random() < 0.3:
+            data += [rng.choice(alpha)] * rng.randint(1, 40)
+        elif rng.random() < 0.5 and len(data) > 6:
+            s0 = rng.randrange(len(data) - 3)
+            data += data[s0:s0 + rng.randint(3, 20)]
+        else:
+            data += [rng.choice(alpha) for _ in range(rng.randint(1, 9))]
+    data = data[:L]
+    half = len(data) // 2
+
+    def pump(d, mode):
+        return dict(op='pump', data=d, chunk=rng.choice([1, 3, max(1, B // 2 + 1), B, B + 3, 50]), mode=mode,
+                    rmax=rng.choice([0, 1, 3]), seed=rng.randrange(1 << 30), pntl=rng.choice([0, 30, 100]),
+                    pnil=rng.choice([0, 20]), pearly=rng.choice([0, 50]), pprobe=20, pshrink=20)
+
+    rdata = data[:min(B, 20)] if B > 0 else []
+    ops = [pump(data[:half], 'write'), dict(op='reset', data=rdata, cap=rng.choice([0, 3, 7, 20])),
+           pump(data[half:], 'readfrom'), dict(op='parse', flags=1), dict(op='parsenil'),
+           dict(op='reset'), dict(op='write', p=data[:min(len(data), B + 5)]), dict(op='shrink'),
+           dict(op='reset', data=data[:B + 1], cap=0),      # oversize: documented error
+           pump(data[:half], 'write'), dict(op='byteat', rel='end', d=0), dict(op='readat', rel='off', d=0, lenp=4)]
+    ps = dict(tid='c16-parser-%d' % idx, comp='parser', cfg=cfg, ops=ops, tags=['grid', kind])
+    wcfg = dict(cfg)
+    wcfg['src'] = data
+    wcfg['rcalls'] = [[3, ''], [1, ''], [5, 'reader'], [0, 'reader2'], [B + 1, '']] + [[rng.randint(1, 9), ''] for _ in range(6)]
+    wcfg['eofwith'] = rng.random() < 0.5
+    ws = dict(tid='c16-wrap-%d' % idx, comp='wrap', cfg=wcfg,
+              ops=[dict(op='wpump', seed=rng.randrange(1 << 30), pntl=30, pnil=10)], tags=['grid', kind])
+    return ps, ws
+
+
+def run_config(ctx, fam):
+    t = ctx.thorough()
+    log('[%s] design model check + grid enumeration (ConfigMC: defaults idempotent, only zero fields change, accepted => relied-on facts)' % ctx.prop)
+    grid = vlib.tlc_enum(ctx, 'ConfigMC.tla', 'ConfigMC_T.cfg' if t else 'ConfigMC.cfg')
+    expect = {}
+    for o in grid:
+        expect[(o['kind'], json.dumps(o['f'], sort_keys=True))] = o.pop('accept')
+    scripts = chunk_ops(grid, 'config-grid', tags=['tlc-grid'])
+    scripts += vlib.go_gen(ctx, 'config', 6000 if t else 1500, ctx.seed)
+    scripts += corpus_scripts('config')
+    # model expectation vs code (informational: DRIFT)
+    def drift_count(tpath):
+        n = tot = 0
+        for tid, (first, evs) in vlib.split_traces(tpath).items():
+            if not tid.startswith('config-grid'):
+                continue
+            sc = by_tid[tid]
+            cfg_evs = [e for e in evs if e['op'] == 'cfg']
+            for o, e in zip(sc['ops'], cfg_evs):
+                key = (o['kind'], json.dumps(o['f'], sort_keys=True))
+                if key in expect and e.get('verify_err') is not None:
+                    tot += 1
+                    if expect[key] != (e['verify_err'] == ''):
+                        n += 1
+        return n, tot
+    by_tid = {s['tid']: s for s in scripts}
+    fam = dict(fam)
+    fam['_post'] = drift_count
+    rc = finish(ctx, fam, scripts, 'Config_Trace', config_mutants, config_features, keep_trace=True)
+    if ctx.prop != 'C16':
+        return rc
+    # C16: every accepted grid point is driven through a generic history
+    import random
+    rng = random.Random(ctx.seed)
+    acc = []
+    for tid, (first, evs) in vlib.split_traces(ctx.last_trace).items():
+        if tid.startswith('config-grid'):
+            for e in evs:
+                if e['op'] == 'cfg' and e.get('new') == 'done' and e.get('new_err') == '':
+                    acc.append((e['kind'], e['d1']))
+    seen = set()
+    uniq = []
+    for k, d in acc:
+        key = (k, json.dumps(d, sort_keys=True))
+        if key not in seen:
+            seen.add(key)
+            uniq.append((k, d))
+    limit = 4000 if t else 350
+    if len(uniq) > limit:
+        uniq = rng.sample(uniq, limit)
+    ps, ws = [], []
+    for i, (k, d) in enumerate(uniq):
+        a, b = generic_history(k, d, i, rng)
+        ps.append(a)
+        ws.append(b)
+    log('[%s] %d accepted grid points -> generic histories (parser + wrap)' % (ctx.prop, len(uniq)))
+    ps += vlib.go_gen(ctx, 'parser', 700 if t else 140, ctx.seed)
+    ps += vlib.go_gen(ctx, 'parser-cap', 210 if t else 42, ctx.seed)
+    ws += vlib.go_gen(ctx, 'wrap', 700 if t else 140, ctx.seed)
+    rc2 = finish(ctx, dict(fam, rule='accepted boundary configurations (ShrinkSize = BufferSize, BufferSize < InputLen, WindowSize 1, BlockSize 1, HashBits maximum, MinMatchLen = MaxMatchLen, defaults) driven through two buffer fills, Shrink, Reset(nil/data/oversize), NoTrailingLiterals, nil blocks and probes + seeded parser histories; rules C16.no_panic, C16.no_hang, C16.err_documented'),
+                 ps, 'Parser_Trace', parser_mutants, parser_features, extra_env={'VERIF_C11': '0', 'VERIF_C12': '0'})
+    rc3 = finish(ctx, dict(fam, rule='the same configurations through WrappedParser with short reads, reader faults, data together with io.EOF: rules C16.no_panic, C16.no_hang, C16.err_documented (io.EOF, the reader error, ErrFullBuffer only)'),
+                 ws, 'Wrap_Trace', wrap_mutants, wrap_features)
+    return 1 if 1 in (rc, rc2, rc3) else max(rc, rc2, rc3)
+
+
+CONFIG_ASSUME = [
+    'TLC evaluates Config.tla correctly; the recorder logs the field values of every derived configuration as decimal strings (binding self-test)',
+    'which values Verify accepts is not specified: C16/C20 relate NewParser, SetDefaults, Verify, Clone, JSON and the reported configuration to each other',
+    'memory: NewParser is not called when the defaults-completed configuration needs a hash table of more than 2^20 entries (new = skipped); buffers above 300 bytes are never filled',
+]
+
+MIX_GENERAL = dict(walks=140, go=[('parser', 350), ('parser-runs', 49), ('parser-osap', 28), ('parser-cap', 28)])
 
 def fam_dbuf(rule):
     return dict(run=run_dbuf, trace_module='DecoderBuf_Trace', rule=rule, assumptions=DBUF_ASSUME)
 
 
 PROPS = {
+    'C20': dict(run=run_multi, trace_module=None, parts=[
+        dict(run=run_config, trace_module='Config_Trace', assumptions=CONFIG_ASSUME,
+             rule='configuration values = every point of the TLC-enumerated boundary grid (ConfigMC, all seven types) + seeded values (negative, zero, 2^31, 2^32-7, 2^40, 2^62) + JSON documents (unknown / mismatching / missing Type, wrong value types, truncated, mutated); one event per value with everything the code derives from it; rules C20.json_roundtrip, json_reject, clone_equal, clone_independent, defaults_idempotent, defaults_only_zero, reported_config; non-trivial = distinct script with accepted and refused values, applied defaults, negative or huge fields'),
+        dict(run=run_tworun, trace_module='TwoRun_Trace', assumptions=TWORUN_ASSUME, gens=[('tworun-cfg', 140)],
+             rule='reported_behaviour: a parser built from the configuration another parser reports (ParserConfig().NewParser()) receives the same calls and must emit the same blocks (TwoRun.tla, rule C20.reported_behaviour)')]),
+    'C16': dict(run=run_multi, trace_module=None, parts=[
+        dict(run=run_config, trace_module='Config_Trace', assumptions=CONFIG_ASSUME,
+             rule='NewParser succeeds exactly when Verify accepts the defaults-completed configuration (rule C16.new_iff_verify) and never panics, on the TLC-enumerated boundary grid and seeded extreme values')]),
     'C13': dict(run=run_tworun, trace_module='TwoRun_Trace', assumptions=TWORUN_ASSUME, race=16,
                 gens=[('tworun-reset', 280), ('tworun-conc', 14)],
                 rule='multi-run traces judged by TwoRun.tla: (reset) a parser with a history (fills, shrinks, matches; related data so that stale dictionary entries would match) is Reset with nil or with data and then receives the same calls as a fresh parser that got the same Reset - every compared call must return the same n, error and block; (det) two fresh parsers, same calls; (conc) one sequential reference run and 8 identical runs on distinct instances executed concurrently next to busy parsers and decoders, a subset under the Go race detector; all seven parsers; non-trivial = distinct script whose compared part contains a match'),
